@@ -4,11 +4,12 @@ pub mod c04;
 pub mod c05;
 pub mod c06;
 pub mod c07;
+pub mod c08;
 
 use crate::engine::Property;
 
 pub fn all() -> Vec<Property> {
-    vec![c01::property(), c02::property(), c04::property(), c05::property(), c06::property(), c07::property()]
+    vec![c01::property(), c02::property(), c04::property(), c05::property(), c06::property(), c07::property(), c08::property()]
 }
 
 /// Non-tape engines (libFuzzer campaigns, subprocess sweeps) attached to a property.
